@@ -4,7 +4,7 @@ Each module defines  register(reg) -> {property_id: {unit_name: unit}}.
 """
 import importlib
 
-MODULES = ['util', 'inputfile', 'contextdb', 'tokenizer', 'collector', 'walker', 'visitor', 'parsingstate', 'encoder', 'enctables', 'parsers', 'latex2text', 'mathmode', 'delimited', 'structure']
+MODULES = ['util', 'inputfile', 'contextdb', 'tokenizer', 'collector', 'walker', 'visitor', 'parsingstate', 'encoder', 'enctables', 'parsers', 'latex2text', 'mathmode', 'delimited', 'structure', 'legacy']
 REPLAYERS = {}
 EXTRA_ASSUMPTIONS = {}
 
@@ -17,6 +17,9 @@ def make_replay(pid, o, model):
     if fn is None and pid == 'C02':
         from contracts import native_structure
         fn = native_structure.replay
+    if fn is None and pid == 'C16':
+        from contracts import legacy
+        fn = legacy.replay
     if fn is None and pid == 'C10':
         from contracts import mathmode
         fn = mathmode.replay
